@@ -141,6 +141,7 @@ func runModelCheck(r *simrt.Run, id string, o GenOpts) Outcome {
 func runC20(r *simrt.Run, tier Tier) Outcome {
 	o := DrawOpts(r)
 	o.Aggregation, o.Lets = false, false
+	o.IDBFacts = false // both entry points take the base facts from the store
 	prog := GenProgram(r, o)
 	// rules only; base facts are preloaded into both stores
 	p2 := *prog
